@@ -17,30 +17,37 @@ import (
 )
 
 type paramInfo struct {
-	obj     *types.Var
-	name    string
-	typ     string
-	asValue bool // pointer passed as its pointee (NonNil)
-	inout   bool // map parameter mutated by the callee: its new value is returned first
-	dropped bool
-	callback bool // the callback parameter of an oracle (Target.Callback)
-	goType  types.Type // oracles: the type the argument is converted to (the static type of the call site for an `any` parameter)
+	obj      *types.Var
+	name     string
+	typ      string
+	asValue  bool // pointer passed as its pointee (NonNil)
+	inout    bool // map parameter mutated by the callee: its new value is returned first
+	dropped  bool
+	callback bool       // the callback parameter of an oracle (Target.Callback)
+	goType   types.Type // oracles: the type the argument is converted to (the static type of the call site for an `any` parameter)
 }
 
 type fnInfo struct {
-	name    string
-	label   string
-	partial bool
-	params  []paramInfo // receiver first; dropped ones included (flagged)
-	nres    int
-	resType string // Coq type of the result tuple (without option)
-	fresh   []bool // result i is always a freshly created map / pointer / slice
-	oracle  bool
+	name     string
+	label    string
+	partial  bool
+	params   []paramInfo // receiver first; dropped ones included (flagged)
+	nres     int
+	resType  string // Coq type of the result tuple (without option)
+	fresh    []bool // result i is always a freshly created map / pointer / slice
+	oracle   bool
 	variadic bool // the last parameter collects the remaining arguments (a list)
-	drop    bool
-	cbPage  string // oracle with a callback: the Coq type of one page
-	freshRes bool  // oracle whose results are freshly allocated (Target.FreshResults)
+	drop     bool
+	cbPage   string // oracle with a callback: the Coq type of one page
+	freshRes bool   // oracle whose results are freshly allocated (Target.FreshResults)
+	effect   bool   // takes the world first and returns the new world first
 }
+
+// rebinds: a call of the function rebinds variables of the caller (in/out arguments, the world).
+func (fi *fnInfo) rebinds() bool { return fi.effect || fi.inoutCount() > 0 }
+
+// needEffect: the function calls something effectful; it is translated again with a world parameter.
+type needEffect struct{}
 
 func (fi *fnInfo) inoutCount() int {
 	n := 0
@@ -70,6 +77,15 @@ type fn struct {
 	partial bool
 	retType string
 
+	// effects
+	effect     bool                  // the function takes and returns the world
+	worldObj   *types.Var            // the variable holding the current world
+	worldIdent *ast.Ident            // its (synthetic) identifier, for destructuring patterns
+	synthIdent map[*ast.Ident]string // synthetic identifiers standing for a fresh Coq name
+	noEffect   int                   // > 0 inside a function literal: no effectful call allowed
+	deferred   []*ast.FuncLit        // deferred function literals registered so far (top level of the body)
+	deferRet   []kont                // inside the body of a deferred literal: what a bare return becomes
+
 	names  map[types.Object]string
 	used   map[string]bool
 	nfresh int
@@ -86,7 +102,8 @@ type fn struct {
 	contK  []kont
 
 	// closures: local variables that hold a function literal, and whether it is partial
-	cbRet      []func(e cx) string  // inside the body of a callback literal: what `return e` becomes
+	assumes    []string              // assumptions printed into the generated definition
+	cbRet      []func(e cx) string   // inside the body of a callback literal: what `return e` becomes
 	droppedObj map[types.Object]bool // parameters dropped by DropParams
 	inMsg      int                   // > 0 while translating an error message (its text is not modelled)
 	nonNilErr  map[types.Object]bool // error variables known to be non-nil here
@@ -331,8 +348,16 @@ func (g *gen) oracleFunc(it *item, fi *fnInfo, obj *types.Func, sig *types.Signa
 				fi.cbPage = "(" + strings.Join(pts, " * ") + ")"
 			}
 			pi.callback, pi.dropped = true, true
+		case recv && isIface && g.isOpaqueIface(pt, sub) && !drop[p.Name()] && !t.AnyReceiver:
+			// a method of an interface type declared Opaque: the oracle depends on the (non-nil) receiver
+			pi.typ = g.opaqueContent(pt, sub)
+			pi.asValue = g.kind(pt, sub) == kNilable
+			ptypes = append(ptypes, pi.typ)
 		case g.kind(pt, sub) == kDropped || drop[p.Name()] || (recv && isIface):
 			pi.dropped = true
+			if recv && isIface {
+				g.note("oracle " + fi.label + " does not take its receiver (an interface value): it stands for the method of one fixed receiver, and every call is assumed to be on that value")
+			}
 		case outs[p.Name()]:
 			ptr, ok := resolve(pt, sub).(*types.Pointer)
 			if !ok {
@@ -384,12 +409,35 @@ func (g *gen) oracleFunc(it *item, fi *fnInfo, obj *types.Func, sig *types.Signa
 		fi.resType = "((list " + fi.cbPage + ") * (option err))"
 		g.note("oracle " + fi.label + " calls its callback sequentially on the pages it produces, stops at the first error the callback returns and returns it, else returns its own final error")
 	}
+	what := "assumed a pure function of its arguments"
+	if t.Effect {
+		if fi.cbPage != "" {
+			g.fail("Effect and Callback cannot be combined (oracle %s)", fi.label)
+		}
+		w := g.world()
+		fi.effect = true
+		ptypes = append([]string{w}, ptypes...)
+		parts := append([]string{w}, outTypes...)
+		for i := 0; i < sig.Results().Len(); i++ {
+			parts = append(parts, g.typ(sig.Results().At(i).Type(), sub))
+		}
+		if len(parts) == 1 {
+			fi.resType = w
+		} else {
+			fi.resType = "(" + strings.Join(parts, " * ") + ")"
+		}
+		what = "an effect: a function of the world and its arguments"
+	}
 	ty := strings.Join(append(ptypes, fi.resType), " -> ")
 	if len(ptypes) == 0 {
 		ty = fi.resType
 	}
-	it.text = fmt.Sprintf("(* oracle: %s (assumed a pure function of its arguments) *)\nVariable %s : %s.", cmt(fi.label), fi.name, ty)
-	g.note("oracle " + fi.label + " is a pure, total function of its (non-dropped) arguments")
+	it.text = fmt.Sprintf("(* oracle: %s (%s) *)\nVariable %s : %s.", cmt(fi.label), what, fi.name, ty)
+	if t.Effect {
+		g.note("oracle " + fi.label + " is a total function of the world and its (non-dropped) arguments")
+	} else {
+		g.note("oracle " + fi.label + " is a pure, total function of its (non-dropped) arguments")
+	}
 }
 
 // ---------- naming ----------
@@ -846,6 +894,14 @@ func (c *fn) analyse() {
 	for _, d := range c.opts.DropParams {
 		drop[d] = true
 	}
+	c.fi.effect = c.effect
+	if c.effect {
+		c.worldObj = types.NewVar(token.NoPos, c.pkg.Types, "w", types.Typ[types.Invalid])
+		c.worldIdent = &ast.Ident{Name: "w"}
+		c.inout = append(c.inout, c.worldObj)
+		c.nameOf(c.worldObj)
+		c.g.note(c.fi.label + " acts on the outside world: it takes the world first and returns the new world first")
+	}
 	for i, p := range ps {
 		pi := paramInfo{obj: p}
 		isRecv := c.sig.Recv() != nil && i == 0
@@ -946,6 +1002,7 @@ func (c *fn) analyse() {
 // ---------- the driver ----------
 
 func (c *fn) translate(it *item) {
+	needsEffect := false
 	run := func(partial bool) (text string, again bool) {
 		defer func() {
 			if r := recover(); r != nil {
@@ -953,10 +1010,15 @@ func (c *fn) translate(it *item) {
 					again = true
 					return
 				}
+				if _, ok := r.(needEffect); ok && !c.effect {
+					needsEffect = true
+					return
+				}
 				panic(r)
 			}
 		}()
 		c.partial = partial
+		c.worldObj, c.synthIdent, c.noEffect, c.deferred, c.deferRet = nil, map[*ast.Ident]string{}, 0, nil, nil
 		c.names = map[types.Object]string{}
 		c.used = map[string]bool{}
 		c.nfresh = 0
@@ -969,6 +1031,7 @@ func (c *fn) translate(it *item) {
 		c.lifted, c.nloops, c.loopDepth = nil, 0, 0
 		c.closureVar, c.closureOpt = map[types.Object]bool{}, map[types.Object]bool{}
 		c.nonNilErr, c.inMsg = map[types.Object]bool{}, 0
+		c.assumes = nil
 		c.analyse()
 		c.retType = c.fi.resType
 		if partial {
@@ -978,7 +1041,7 @@ func (c *fn) translate(it *item) {
 			if c.sig.Results().Len() > 0 && len(c.namedRes) == 0 {
 				c.fail(c.decl, "control reaches the end of a function with results")
 			}
-			return c.returnTerm(c.decl.Body, nil)
+			return c.finish(c.decl.Body, nil)
 		}
 		body := func() string { return c.block(c.decl.Body.List, end) }
 		var pre []string
@@ -990,12 +1053,16 @@ func (c *fn) translate(it *item) {
 			term = strings.Join(pre, " ") + " " + term
 		}
 		var ps []string
+		var pnames []string
+		if c.effect {
+			ps = append(ps, fmt.Sprintf("(%s : %s)", c.names[c.worldObj], c.g.world()))
+			pnames = append(pnames, c.names[c.worldObj])
+		}
 		for _, p := range c.fi.params {
 			if !p.dropped {
 				ps = append(ps, fmt.Sprintf("(%s : %s)", p.name, p.typ))
 			}
 		}
-		var pnames []string
 		for _, p := range c.fi.params {
 			if !p.dropped {
 				pnames = append(pnames, p.name)
@@ -1007,11 +1074,27 @@ func (c *fn) translate(it *item) {
 		for _, l := range c.lifted {
 			pre2 += l + "\n"
 		}
+		seenA := map[string]bool{}
+		for _, a := range c.assumes {
+			if !seenA[a] {
+				seenA[a] = true
+				pre2 += "(* ASSUMES: " + cmt(a) + " *)\n"
+			}
+		}
 		return pre2 + hdr + "  " + indentTerm(term) + ".", false
 	}
+	c.effect = false
 	text, again := run(false)
+	if needsEffect {
+		c.effect, needsEffect = true, false
+		text, again = run(false)
+	}
 	if again {
 		text, _ = run(true)
+		if needsEffect {
+			c.effect, needsEffect = true, false
+			text, _ = run(true)
+		}
 	}
 	c.fi.partial = c.partial
 	// local names must not capture global names of this file
@@ -1142,6 +1225,9 @@ func (c *fn) assignedIn(n ast.Node) []types.Object {
 				}
 			}
 			fi, _, recv := c.calleeInfo(s)
+			if fi != nil && fi.effect && c.worldObj != nil {
+				set[c.worldObj] = true
+			}
 			if fi != nil && fi.inoutCount() > 0 {
 				args := s.Args
 				if recv != nil {
@@ -1166,6 +1252,9 @@ func (c *fn) assignedIn(n ast.Node) []types.Object {
 
 // varType is the Coq type of the Coq variable that stands for o.
 func (c *fn) varType(o types.Object) string {
+	if c.worldObj != nil && o == c.worldObj {
+		return c.g.world()
+	}
 	if c.closureVar[o] && c.closureOpt[o] {
 		if sig, ok := resolve(o.Type(), c.sub).Underlying().(*types.Signature); ok {
 			t := c.g.sigType(sig, c.sub, nil)
@@ -1179,7 +1268,6 @@ func (c *fn) varType(o types.Object) string {
 	}
 	return c.g.typ(o.Type(), c.sub)
 }
-
 
 // checkAliases refuses a function in which a map / pointer this function may
 // mutate (created here, or a mutated map parameter) is mutated after a second
@@ -1388,7 +1476,6 @@ func (c *fn) checkAliases() {
 	}
 }
 
-
 // ---------- function literals ----------
 
 // assignPositions lists, per local variable, where it is assigned or mutated
@@ -1541,6 +1628,10 @@ func (c *fn) funcLit(lit *ast.FuncLit) (cx, bool) {
 		depth    int
 		resType  string
 	}
+	c.noEffect++
+	sDeferred, sDeferRet := c.deferred, c.deferRet
+	c.deferred, c.deferRet = nil, nil
+	defer func() { c.noEffect--; c.deferred, c.deferRet = sDeferred, sDeferRet }()
 	sv := saved{c.sig, c.partial, c.retType, c.inout, c.namedRes, c.breakK, c.contK, c.loopDepth, c.fi.resType}
 	restore := func() {
 		c.sig, c.partial, c.retType, c.inout, c.namedRes, c.breakK, c.contK, c.loopDepth = sv.sig, sv.partial, sv.retType, sv.inout, sv.namedRes, sv.breakK, sv.contK, sv.depth
